@@ -101,13 +101,20 @@ macro_rules! comp_uint {
 comp_uint!(u8, "u8");
 comp_uint!(u16, "u16");
 
+/// (the array type is spelled out so that the helper's bounds can be stated on the array or on its item)
 #[derive(Serialize, Deserialize)]
-struct AsArray<C: ArrayCast>
+#[serde(bound(serialize = "T: Serialize, [T; N]: Serialize", deserialize = "T: DeserializeOwned, [T; N]: DeserializeOwned"))]
+struct AsArray<C, T, const N: usize>
 where
-    C::Array: Serialize + DeserializeOwned,
+    C: ArrayCast<Array = [T; N]>,
 {
     #[serde(with = "palette::serde::as_array")]
     c: C,
+    #[serde(skip)]
+    _t: core::marker::PhantomData<T>,
+}
+fn as_array<C: ArrayCast<Array = [T; N]>, T, const N: usize>(c: C) -> AsArray<C, T, N> {
+    AsArray { c, _t: core::marker::PhantomData }
 }
 
 #[derive(Serialize, Deserialize)]
@@ -209,15 +216,24 @@ where
     }
     // ---- compact sequence form: as_array helper and the type's own Deserialize from a sequence
     m.evals(3);
-    let arr_text = serde_json::to_string(&AsArray { c }).unwrap();
+    let arr_text = serde_json::to_string(&as_array::<C, T, N>(c)).unwrap();
     let comp_texts: Vec<String> = comps.iter().map(|x| serde_json::to_string(x).unwrap()).collect();
     let exp_arr = format!("{{\"c\":[{}]}}", comp_texts.join(","));
     if arr_text != exp_arr {
         m.violate(inst, "as_array_shape", inp(), json!(arr_text), json!(exp_arr), "the array the cast functions give");
     }
-    match serde_json::from_str::<AsArray<C>>(&arr_text) {
+    match serde_json::from_str::<AsArray<C, T, N>>(&arr_text) {
         Ok(d) if same(&d.c) => {}
         other => m.violate(inst, "as_array_round_trip", inp(), json!(format!("{:?}", other.map(|d| d.c).map_err(|e| e.to_string()))), json!(format!("{:?}", c)), &arr_text),
+    }
+    // the same helper through RON, which tells fixed-size tuples from sequences
+    m.eval();
+    match ron::to_string(&as_array::<C, T, N>(c)) {
+        Ok(text) => match ron::from_str::<AsArray<C, T, N>>(&text) {
+            Ok(d) if same(&d.c) => {}
+            other => m.violate(inst, "as_array_ron_round_trip", inp(), json!(format!("{:?}", other.map(|d| d.c).map_err(|e| e.to_string()))), json!(format!("{:?}", c)), &text),
+        },
+        Err(e) => m.violate(inst, "ron_serialize_error", inp(), json!(e.to_string()), json!("ok"), ""),
     }
     let seq = format!("[{}]", comp_texts.join(","));
     match serde_json::from_str::<C>(&seq) {
@@ -415,8 +431,8 @@ fn uint_helpers(ctx: &Ctx, h: &mut Monitor) {
                 }
                 // and the colour it unpacks to survives an as_array trip
                 let rgba: palette::Srgba<u8> = p.into();
-                let t2 = serde_json::to_string(&AsArray { c: rgba }).unwrap();
-                let b2 = serde_json::from_str::<AsArray<palette::Srgba<u8>>>(&t2).map(|d| d.c);
+                let t2 = serde_json::to_string(&as_array::<palette::Srgba<u8>, u8, 4>(rgba)).unwrap();
+                let b2 = serde_json::from_str::<AsArray<palette::Srgba<u8>, u8, 4>>(&t2).map(|d| d.c);
                 if b2.as_ref().ok() != Some(&rgba) || t2 != format!("{{\"c\":[{},{},{},{}]}}", rgba.red, rgba.green, rgba.blue, rgba.alpha) {
                     h.violate(concat!("Packed<", $name, ",u32>"), "as_array_of_unpacked", json!({"value": v}), json!(t2), json!(format!("{:?}", rgba)), "");
                 }
@@ -450,7 +466,7 @@ fn main() {
     }
     let mut m = Monitor::new(
         n1,
-        "every serializable colour type (Rgb in two standards, Luma, Hsl, Hsv, Hwb, Xyz, Yxy, Lab, Lch, Luv, Lchuv, Hsluv, Oklab, Oklch, Okhsl, Okhsv, Okhwb, Lms-free list as available, CAM16-UCS Jab / Jmh (the full and partial CAM16 types are not serializable); f32, f64, and u8/u16 for Rgb) in opaque, Alpha and PreAlpha form, seeded components incl. -0.0, MIN, MAX, MIN_POSITIVE, subnormal-scale and arbitrary bit patterns, any hue: JSON text is an object whose key set is exactly the colour's own fields (+ `alpha` at the same level), every value a bare number equal to the component (hue included, no standard / white point metadata); from_str, from_str with the fields reversed, serde_json::Value, the as_array helper (text equals the cast array), the type's own Deserialize from a JSON sequence, tuples / Vec, #[serde(flatten)] inside a user struct, RON text (struct, reversed fields, tuple) all give back the bit-identical colour; distinct = (type, float, shape, value class)",
+        "every serializable colour type (Rgb in two standards, Luma, Hsl, Hsv, Hwb, Xyz, Yxy, Lab, Lch, Luv, Lchuv, Hsluv, Oklab, Oklch, Okhsl, Okhsv, Okhwb, Lms-free list as available, CAM16-UCS Jab / Jmh (the full and partial CAM16 types are not serializable); f32, f64, and u8/u16 for Rgb) in opaque, Alpha and PreAlpha form, seeded components incl. -0.0, MIN, MAX, MIN_POSITIVE, subnormal-scale and arbitrary bit patterns, any hue: JSON text is an object whose key set is exactly the colour's own fields (+ `alpha` at the same level), every value a bare number equal to the component (hue included, no standard / white point metadata); from_str, from_str with the fields reversed, serde_json::Value, the as_array helper (JSON text equals the cast array; RON round trip), the type's own Deserialize from a JSON sequence, tuples / Vec, #[serde(flatten)] inside a user struct, RON text (struct, reversed fields, tuple) all give back the bit-identical colour; distinct = (type, float, shape, value class)",
     );
     let mut h = Monitor::new(
         n2,
